@@ -31,7 +31,7 @@ Inductive rop :=
 | XLast (o : nat) (k : bstr)
 | XBefore (o : nat) (k r : bstr)
 | XAfter (o : nat) (k r : bstr)
-| XSort (o : nat)
+| XSort (o : nat) (sk : sortkey)
 | XCopy (o : nat)
 | XReparse (o : nat)
 | XDump (o : nat).
@@ -87,7 +87,7 @@ Definition op_of (x : rop) : op :=
   | XLast o k => OLast o (bdec k)
   | XBefore o k r => OBefore o (bdec k) (bdec r)
   | XAfter o k r => OAfter o (bdec k) (bdec r)
-  | XSort o => OSort o
+  | XSort o sk => OSort o sk
   | XCopy o => OCopy o
   | XReparse o => OReparse o
   | XDump o => ODump o
